@@ -1377,7 +1377,13 @@ impl C08 {
                     counters.bump("probe_two_active_connections_unattributable");
                     return Ok(());
                 }
-                None => return Err(first_err.expect("no attribution tried")),
+                None => {
+                    let v = first_err.expect("no attribution tried");
+                    return Err(Violation::new(&v.class, &v.key, format!(
+                        "no attribution of the {} Full/Diff calls to the two connections explains both outputs ({} tried); under the first one tried: {}",
+                        n, if n <= 12 { 1u64 << n } else { candidates.len() as u64 }, v.detail
+                    )));
+                }
             }
         }
         let (m, idx, notifies_seen) = decide(&main_in, &answers)?;
